@@ -16,6 +16,9 @@ from ..strict import canon, jtype, short
 
 ID = "C01"
 LEVEL = "exploration"
+CLAIM = True
+TECHNIQUE = 'property-based testing: generated (query AST, document) pairs vs an independent RFC 9535 reference evaluator; exhaustive small-scope enumeration of slices, indices and the selector x value-kind matrix'
+LEVEL_TEXT = 'Exploration by generated-input search: document-guided query ASTs rendered in many RFC spellings are compared node-for-node (order, duplicates, identity) with an independent reference evaluator; slice bounds {omitted,-7..7}^3 x lengths 0..6, indices -8..8 x lengths 0..7, the selector-kind x value-kind matrix and every delicate member name are enumerated exhaustively.'
 BUDGET_S = {"quick": 75, "thorough": 780}
 RULE = ("Document-guided ASTs over name/index/slice/wildcard selectors in child and descendant "
         "segments (1-5 segments, bracket lists of 1-5 selectors), each rendered in several RFC 9535 "
@@ -33,68 +36,11 @@ ASSUMPTIONS = [
 KNOWN_QUIRKS = ["slice-on-string"]
 
 
-# ------------------------------------------------------------------ oracle
+from ..oracle import diff_nodelists, judge_query  # noqa: E402
 
 
-def judge(stats: Stats, ast, doc, text, origin):
-    """Compare the library on `text` with the reference on `ast`."""
-    ctx = ref.Ctx(doc)
-    expected = ref.run_query(ast, doc, ctx)
-    stats.ev()
-    case = {"ast": ast, "doc": doc, "text": text, "origin": origin}
-    kind, res = lib.find(text, doc)
-    if kind == "err":
-        if isinstance(res, lib.JSONPathError):
-            sig = "reject:%s:%s" % (type(res).__name__, lib.norm_msg(res))
-        else:
-            sig = "crash:%s@%s" % (type(res).__name__, lib.exc_site(res))
-        stats.fail(sig, case, "valid RFC 9535 query %r rejected: %s: %s" % (text, type(res).__name__, res))
-        return expected, ctx
-    diff = diff_nodelists(res, expected)
-    if diff is not None:
-        sig = None
-        for qk in KNOWN_QUIRKS:
-            alt = ref.run_query(ast, doc, ref.Ctx(doc, quirks=[qk]))
-            if diff_nodelists(res, alt) is None:
-                sig = "quirk:" + qk
-                break
-        if sig is None:
-            sig = "mismatch:%s:%s" % (diff[0], ",".join(sorted(ctx.events)) or "-")
-        stats.fail(sig, case, "query %r on %s: %s" % (text, short(doc, 300), diff[1]))
-        return expected, ctx
-    # entry points named by the property
-    try:
-        import jsonpath
-        vals_a = jsonpath.findall(text, doc)
-        vals_b = jsonpath.compile(text).findall(doc)
-    except Exception as e:  # noqa: BLE001
-        stats.fail("entry:%s" % type(e).__name__, case, "findall raised %r after finditer succeeded" % (e,))
-        return expected, ctx
-    for name, vals in (("findall", vals_a), ("compile.findall", vals_b)):
-        if len(vals) != len(expected) or not all(lib.same_node(v, e[1]) for v, e in zip(vals, expected)):
-            stats.fail("entry-mismatch:" + name, case, "%s(%r) = %s, finditer agrees with reference" % (name, text, short(vals)))
-    return expected, ctx
-
-
-def diff_nodelists(res, expected):
-    """res: [(parts, obj, path)] from the library; expected: [(parts, value)]."""
-    if len(res) != len(expected):
-        lp = [r[0] for r in res]
-        ep = [e[0] for e in expected]
-        kind = "extra" if len(res) > len(expected) else "missing"
-        return kind, "library returned %d nodes %s, RFC gives %d nodes %s" % (
-            len(res), short(lp, 200), len(expected), short(ep, 200))
-    for i, (r, e) in enumerate(zip(res, expected)):
-        if tuple(r[0]) != tuple(e[0]) or any(type(a) is not type(b) for a, b in zip(r[0], e[0])):
-            lp = [x[0] for x in res]
-            ep = [x[0] for x in expected]
-            kind = "order" if sorted(map(repr, lp)) == sorted(map(repr, ep)) else "parts"
-            return kind, "node %d: library location %r, RFC location %r (library %s, RFC %s)" % (
-                i, r[0], e[0], short(lp, 200), short(ep, 200))
-        if not lib.same_node(r[1], e[1]):
-            return "value", "node %d at %r: library value %s is not the document node %s" % (
-                i, r[0], short(r[1], 100), short(e[1], 100))
-    return None
+def judge(stats, ast, doc, text, origin):
+    return judge_query(stats, ast, doc, text, origin, KNOWN_QUIRKS)
 
 
 def classify(stats: Stats, ast, doc, expected, ctx, features):
